@@ -576,7 +576,7 @@ impl Prop for C06 {
         run(c, o)
     }
     fn rule() -> &'static str {
-        "proptest + enumerated boundary cases. Decode: Streaming::new_request/new_response with limit L in {default 4 MiB, 0, 1, 5, 100, 4096, 65536}; 0-3 acceptable earlier messages (sizes L, L-1, small) then a probe frame declaring L-1, L, L+1, L+k, 2L+2, 2^31, 2^32-1, 64 MiB or a random huge value, either with its payload (<= 8 MiB) and a following message, or with nothing following and the body left Pending; any chunking with a cut right after the prefix. Oracle: accepted iff declared <= L; refusal is OUT_OF_RANGE produced on the poll that delivered the prefix (never Pending), earlier messages intact, nothing afterwards; for declared >= 64 MiB the counting global allocator saw no single request >= declared/2. Compressed frames whose wire length is <= L but which decompress to up to 20 L must be accepted. Encode: EncodeBody both roles with limit L, a message of encoded size L+1 (or L+k) at position p after p acceptable messages ready in the same batch or flushed earlier, with further messages behind it; oracle: exactly the p earlier messages, in order, in whole frames before the OUT_OF_RANGE status (trailers for a server, body error for a client), nothing from position >= p, no DATA after the status. A 2^32+1-byte message (encoder that reserves without touching) must give RESOURCE_EXHAUSTED with the same guarantees. Plumbing: max_{en,de}coding_message_size on generated client and server at L-1, L, L+1. Non-trivial: oversize with an earlier message in the same batch / before it, or declared-but-absent payload. Also: request bodies with an exact size_hint (as hyper reports for content-length) at L-6..L+1 through the generated server. The generated-server probe uses all four handlers (unary, server-streaming, client-streaming, bidi) and always sets the other direction's limit to 2L+64. Every fifth generated-server probe configures a limit of 2^32 + L."
+        "proptest + enumerated boundary cases. Decode: Streaming::new_request/new_response with limit L in {default 4 MiB, 0, 1, 5, 100, 4096, 65536}; 0-3 acceptable earlier messages (sizes L, L-1, small) then a probe frame declaring L-1, L, L+1, L+k, 2L+2, 2^31, 2^32-1, 64 MiB or a random huge value, either with its payload (<= 8 MiB) and a following message, or with nothing following and the body left Pending; any chunking with a cut right after the prefix. Oracle: accepted iff declared <= L; refusal is OUT_OF_RANGE produced on the poll that delivered the prefix (never Pending), earlier messages intact, nothing afterwards; for declared >= 64 MiB the counting global allocator saw no single request >= declared/2. Compressed frames whose wire length is <= L but which decompress to up to 20 L must be accepted. Encode: EncodeBody both roles with limit L, a message of encoded size L+1 (or L+k) at position p after p acceptable messages ready in the same batch or flushed earlier, with further messages behind it; oracle: exactly the p earlier messages, in order, in whole frames before the OUT_OF_RANGE status (trailers for a server, body error for a client), nothing from position >= p, no DATA after the status. A 2^32+1-byte message (encoder that reserves without touching) must give RESOURCE_EXHAUSTED with the same guarantees. Plumbing: max_{en,de}coding_message_size on generated client and server at L-1, L, L+1. Non-trivial: oversize with an earlier message in the same batch / before it, or declared-but-absent payload. Also: request bodies with an exact size_hint (as hyper reports for content-length) at L-6..L+1 through the generated server. The generated-server probe uses all four handlers (unary, server-streaming, client-streaming, bidi) and always sets the other direction's limit to 2L+64. Every fifth generated-server probe configures a limit of 2^32 + L. EncoderRefuses probe (the codec fails one message after writing part of it); a third of the decode-side server probes configure only the decoding limit and answer with L + 100 bytes; every fifth client probe configures 2^32 + L."
     }
     fn assumptions() -> Vec<String> {
         vec![
